@@ -44,7 +44,8 @@ def calc_equilibrium_temperature(
 
     heating = insolation_heating
     if internal_heating is not None:
-        heating += internal_heating
+        # Not in place: the caller keeps (and reuses) its insolation heating array.
+        heating = heating + internal_heating
 
     # TODO: There was a divisor of 1/2 on this coeff before. I don't recognize it from anywhere. Removed for now.
     # coeff = 4. * np.pi * radius**2 * emissivity * sbc / 2.
